@@ -9,4 +9,5 @@ Definition nesting_actual : nquirks := {|
   q_py_table_from_code := true;
   q_ts_elseif_nests := false;
   q_rs_elseif_nests := false;
-  q_rs_table_from_code := true |}.
+  q_rs_table_from_code := true;
+  q_ts_fn_types_from_code := true |}.
